@@ -253,14 +253,37 @@ impl Interp for Nest {
                     }
                 };
                 if let Some(v) = self.colls.get(&h) {
-                    format!(
+                    let vec_answer = format!(
                         "{};{};{};{};{}",
                         bits(v.number_active()),
                         bits(v.percent_active()),
                         v.get_all_causes_true() as u8,
                         ids(v.get_all_active_causes()),
                         ids(v.get_all_inactive_causes())
-                    )
+                    );
+                    // the same members (clones share their activation cells) in a `VecDeque` whose ring buffer is wrapped:
+                    // the aggregates are claimed for every supported collection
+                    let n = v.len();
+                    let mut d: std::collections::VecDeque<C> = std::collections::VecDeque::with_capacity(n + 3);
+                    for x in &v[n / 2..] {
+                        d.push_back(x.clone());
+                    }
+                    for x in v[..n / 2].iter().rev() {
+                        d.push_front(x.clone());
+                    }
+                    let deque_answer = format!(
+                        "{};{};{};{};{}",
+                        bits(d.number_active()),
+                        bits(d.percent_active()),
+                        d.get_all_causes_true() as u8,
+                        ids(d.get_all_active_causes()),
+                        ids(d.get_all_inactive_causes())
+                    );
+                    if vec_answer == deque_answer {
+                        vec_answer
+                    } else {
+                        format!("container-differs:vec={vec_answer}:deque={deque_answer}")
+                    }
                 } else if let Some(g) = self.graphs.get(&h) {
                     format!(
                         "{};{};{};{}",
